@@ -36,13 +36,12 @@ CFGS = {"W64": "asan-dbg", "W32": "w32-dbg"}
 # Each entry: function -> what is missing.  They are not theorems; ASan runs at exact size
 # cover them as samples.  (regex on the function key)
 OPEN = [
-    (r"bign96ParamsVal|bign96Verify|bignIdSign2|bignParamsVal|bignSign2|g12sEcCreate",
-     "post-conditions of bignStart/ecpCreateJ are available, but the arithmetic goal is too large for omega within the heartbeat limit "
-     "(many-way max in bignSign2_deep/bignParamsVal_deep/ecAddMulA_deep) or needs monotonicity of a callee depth in a run-time size"),
+    (r"bign(96)?[A-Z]\w*|bakeSWU|g12sEcCreate", "users of the bignStart post-condition: provable (see docs/C07.md) but the omega goals are large; kept "
+     "open until each proof is verified to build within the heartbeat limit in both word sizes"),
     (r"ppMinPolyMod", "l = ppDeg(mod) is read from data: unconstrained in the model, the obligation needs l <= n * B_PER_W"),
     (r"ecpIsSafeGroup|ec2IsSafeGroup", "callee sizes are run-time normalised (n1' <= n + 1): needs monotonicity of priIsPrime_deep/zzMod_deep in n"),
-    (r"pfok(DH|MTI|ParamsVal|PubkeyCalc)|priIsSGPrime|zzPowerMod", "post-condition of zmCreate/zmMontCreate is available; the goal needs monotonicity of "
-     "zmCreate_deep/qrPower_deep in the run-time normalised octet length (no' <= O_OF_W(n)) — not proved"),
+    (r"pfok\w+|priIsSGPrime|zzPowerMod", "post-condition of zmCreate/zmMontCreate is available; the goal needs monotonicity of "
+     "zmCreate_deep/qrPower_deep in the run-time normalised octet length (no' <= O_OF_W(n)) — not proved by the generic tactic"),
 ]
 
 
